@@ -404,6 +404,39 @@ def run(chk, replay=None):
     chk.cov["model_vs_code_disagreements"] = ndis
     chk.cov["boundary_values"] = len(B)
 
+    # ---- compositions: whole programs over the real symbol set, observed at vita::run -------------
+    # (the C01 harness builds random individuals with vita's constructor / mutation / crossover and runs
+    #  them on finite examples; `run_closed` says the answer is finite or undefined)
+    if not replay:
+        exe2 = C.build_harness("c01_interp", "asan", extra_flags=["-DWIRE_H_HASH=" + wh])
+        reqs = []
+        for _ in range(250 if quick else 6000):
+            rows = rng.between(4, 41)
+            reqs.append(f"scn real {rng.next() % 1000000007} {rows} {1 + rng.below(min(rows - 1, 5))} "
+                        f"{rng.below(3)} {rng.between(2, 5)}")
+        ans2, deaths2 = C.run_lines(exe2, reqs, timeout=3000)
+        for idx, rc, se in deaths2:
+            chk.violation("composition harness died (rc=%d) on `%s`\n%s" % (rc, reqs[idx], se[-1500:]),
+                          {"request": reqs[idx]}, tags={"op": "program", "request": reqs[idx]})
+        for q, a in zip(reqs, ans2):
+            prog = None
+            for item in a.split(" ;; "):
+                t = item.split()
+                if not t:
+                    continue
+                if t[0] == "P":
+                    prog = item
+                    chk.count("composition_programs")
+                elif t[0][0] == "R" and "=" in t:
+                    r = t[t.index("=") + 1]
+                    chk.evaluations += 1
+                    chk.count("composition_result:" + r[0])
+                    if r[0] == "D" and (int(r[1:], 16) >> 52) & 0x7FF == 0x7FF:
+                        chk.violation(f"a program over the real primitives returned the non-finite double {r} on the "
+                                      f"finite example [{' '.join(t[1:t.index('=')])}]: `{(prog or '')[:300]}…`",
+                                      {"request": q, "program": prog, "item": item},
+                                      tags={"op": "program", "request": q})
+
     if broken and not [v for v in chk.violations if not v[2]]:
         for b in broken[:4]:
             chk.violation(b, {"broken": b, "searched": f"{len(lines)} argument tuples (boundary cross product + random) "
